@@ -1143,7 +1143,10 @@ class Assembler:
                             'body_sha256': hashlib.sha256(body.encode()).hexdigest()})
         if attrs_dropped:
             self.dropped.append({'item': 'fn ' + key, 'where': '%s:%d' % (c.src, fn_line), 'dropped_attrs': attrs_dropped})
+        n_loops = len(find_loops(body))
+        n_annotated = len([n for n, cls in c.loops.items() if any(x.kind == 'invariant' for x in cls)])
         self.functions.append({'key': key, 'name': c.name, 'ctx': c.ctx, 'src': '%s:%d' % (c.src, fn_line),
+                               'loops': n_loops, 'loops_with_invariant': n_annotated,
                                'clauses': [{'id': x.cid, 'tags': x.tags, 'kind': x.kind} for x in c.clauses] +
                                           [{'id': x.cid, 'tags': x.tags, 'kind': 'loop-' + x.kind} for cls in c.loops.values() for x in cls],
                                'safety_tags': c.safety_tags})
